@@ -7,6 +7,15 @@
 EXTENDS Dec, Matrices
 VARIABLES ci, nbad
 
+\* DecState of Dec.tla (the same value), decoding every logged hyperedge once: the hub inputs have hundreds of them
+DecStateL(j) ==
+  LET ps == {<<DecKey(e.k), e>> : e \in Rng(j.edges)}
+  IN [nodes |-> Rng(j.nodes),
+      E     |-> [k \in {p[1] : p \in ps} |-> LET e == (CHOOSE p \in ps : p[1] = k)[2] IN [w |-> e.w, md |-> e.md]],
+      nmd   |-> Pairs2Fun(j.nmd),
+      hmd   |-> j.hmd,
+      wtd   |-> j.wtd]
+
 Ret(m)  == ~Has(m, "raised")
 NR(m)   == m.shape[1]
 NC(m)   == m.shape[2]
@@ -29,10 +38,12 @@ ZeroRowSums(m) == \A i \in 1..NR(m) : SeqSum(m.M[i], 1) = 0
 
 \* node x hyperedge matrix: the bag of its columns, each read as <<member set, set of non-zero values>>
 ColSupport(m, j) == {i \in 1..NR(m) : m.M[i][j] # 0}
-ColsBag(m) == SeqBag([j \in 1..NC(m) |-> <<{NodeAt(m.map, i) : i \in ColSupport(m, j)},
-                                             {m.M[i][j] : i \in ColSupport(m, j)}>>])
-KeysBag(K, W(_)) == LET V(k) == <<KN(k), {W(k)}>>
-                    IN [v \in {V(k) : k \in K} |-> Cardinality({k \in K : V(k) = v})]
+\* a bag (value -> multiplicity) of the second components of a set of <<index, value>> pairs; the pairs are built
+\* once, so every column and every hyperedge is read once (the hub inputs have hundreds of them)
+BagOfPairs(ps) == [v \in {p[2] : p \in ps} |-> Cardinality({p \in ps : p[2] = v})]
+ColsBag(m) == BagOfPairs({<<j, <<{NodeAt(m.map, i) : i \in ColSupport(m, j)},
+                                 {m.M[i][j] : i \in ColSupport(m, j)}>>>> : j \in 1..NC(m)})
+KeysBag(K, W(_)) == BagOfPairs({<<k, <<KN(k), {W(k)}>>>> : k \in K})
 IncidenceIs(m, K, W(_)) == Shaped(m) /\ ColsBag(m) = KeysBag(K, W)
 
 \* the three standard clauses of a matrix carrying its own mapping over the node set X
@@ -50,7 +61,7 @@ DualIs(m, ks) ==
      \/ Len(ks) <= 6 /\ \E p \in Permutations(1..Len(ks)) : DualPos(m, [i \in 1..Len(ks) |-> ks[p[i]]])
 
 HgClauses(c) ==
-  LET S == DecState(c.st)
+  LET S == DecStateL(c.st)
       W(k) == S.E[k].w
       U(k) == 1
       A(n, m) == Adj(S, n, m)
@@ -64,23 +75,28 @@ HgClauses(c) ==
 
 \* per-order variants (logged for unweighted hypergraphs only)
 OrderClauses(c) ==
-  LET S == DecState(c.st)
+  LET S == DecStateL(c.st)
       U(k) == 1
       All(P(_)) == \A r \in Rng(c.byorder) : P(r)
+      \* K = OfOrder(S, r.d) is evaluated once per matrix:  AdjD(S, d, n, m) = AdjK(K, n, m),  DegD(S, d, n) = DegK(K, n),
+      \* LapD(S, d, n, m) = LapK(K, d, n, m)  by their definitions in Matrices.tla
       P1(r) == Ret(r.incF) /\ Ret(r.incT)
       P2(r) == /\ Ret(r.incF) => MapOK(r.incF, NodesOfKeys(OfOrder(S, r.d)))
                /\ Ret(r.incT) => MapOK(r.incT, S.nodes)
-      P3(r) == /\ (Ret(r.incF) /\ MapOK(r.incF, NodesOfKeys(OfOrder(S, r.d)))) => IncidenceIs(r.incF, OfOrder(S, r.d), U)
-               /\ (Ret(r.incT) /\ MapOK(r.incT, S.nodes)) => IncidenceIs(r.incT, OfOrder(S, r.d), U)
+      P3(r) == LET K == OfOrder(S, r.d) IN
+               /\ (Ret(r.incF) /\ MapOK(r.incF, NodesOfKeys(K))) => IncidenceIs(r.incF, K, U)
+               /\ (Ret(r.incT) /\ MapOK(r.incT, S.nodes)) => IncidenceIs(r.incT, K, U)
       P4(r) == Ret(r.adj)
       P5(r) == Ret(r.adj) => MapOK(r.adj, S.nodes)
-      P6(r) == (Ret(r.adj) /\ MapOK(r.adj, S.nodes)) => LET F(n, m) == AdjD(S, r.d, n, m) IN SquareIs(r.adj, r.adj.map, F)
+      P6(r) == (Ret(r.adj) /\ MapOK(r.adj, S.nodes)) =>
+                  LET K == OfOrder(S, r.d) F(n, m) == AdjK(K, n, m) IN SquareIs(r.adj, r.adj.map, F)
       OKAdj(r) == Ret(r.adj) /\ MapOK(r.adj, S.nodes)
       P7(r) == OKAdj(r) => Ret(r.deg)
       P8(r) == (OKAdj(r) /\ Ret(r.deg)) =>
-                  LET F(n, m) == IF n = m THEN DegD(S, r.d, n) ELSE 0 IN SquareIs(r.deg, r.adj.map, F)
+                  LET K == OfOrder(S, r.d) F(n, m) == IF n = m THEN DegK(K, n) ELSE 0 IN SquareIs(r.deg, r.adj.map, F)
       P9(r) == Ret(r.lap)
-      P10(r) == (OKAdj(r) /\ Ret(r.lap)) => LET F(n, m) == LapD(S, r.d, n, m) IN SquareIs(r.lap, r.adj.map, F)
+      P10(r) == (OKAdj(r) /\ Ret(r.lap)) =>
+                  LET K == OfOrder(S, r.d) F(n, m) == LapK(K, r.d, n, m) IN SquareIs(r.lap, r.adj.map, F)
       P11(r) == Ret(r.lap) => (Shaped(r.lap) /\ NR(r.lap) = NC(r.lap) /\ Symmetric(r.lap) /\ ZeroRowSums(r.lap))
       \* the identity between the three returned matrices, entry by entry
       P12(r) == (Ret(r.lap) /\ Ret(r.deg) /\ Ret(r.adj) /\ Shaped(r.lap) /\ Shaped(r.deg) /\ Shaped(r.adj)
@@ -101,7 +117,7 @@ OrderClauses(c) ==
       <<"laplacian:is_d_times_degree_minus_adjacency", All(P12)>>}
 
 LapAllClauses(c) ==
-  LET S == DecState(c.st) IN
+  LET S == DecStateL(c.st) IN
   IF ~Has(c, "lapall") THEN {} ELSE
   {<<"laplacians_all_orders:returned", Ret(c.lapall)>>,
    \* "all orders": at least every order >= 1 that has a hyperedge, each listed once
@@ -109,11 +125,11 @@ LapAllClauses(c) ==
         /\ {d \in 1..(MaxSize(S) - 1) : OfOrder(S, d) # {}} \subseteq {r.d : r \in Rng(c.lapall.mats)}
         /\ Cardinality({r.d : r \in Rng(c.lapall.mats)}) = Len(c.lapall.mats)>>,
    <<"laplacians_all_orders:entries", (Ret(c.lapall) /\ Ret(c.adj) /\ MapOK(c.adj, S.nodes)) =>
-        \A r \in Rng(c.lapall.mats) : LET F(n, m) == LapD(S, r.d, n, m) IN SquareIs(r, c.adj.map, F)>>}
+        \A r \in Rng(c.lapall.mats) : LET K == OfOrder(S, r.d) F(n, m) == LapK(K, r.d, n, m) IN SquareIs(r, c.adj.map, F)>>}
 
 \* adjacency tensor: node label i (0..N-1) is the spec node i + 1
 TensorClauses(c) ==
-  LET S == DecState(c.st) IN
+  LET S == DecStateL(c.st) IN
   IF ~Has(c, "tensor") THEN {} ELSE
   {<<"tensor:returned", Ret(c.tensor)>>,
    <<"tensor:shape", Ret(c.tensor) => /\ Len(c.tensor.shape) = TensorRank(S)
@@ -123,7 +139,7 @@ TensorClauses(c) ==
         /\ \A v \in Rng(c.tensor.vals) : v = 1>>}
 
 TempClauses(c) ==
-  LET S == DecState(c.st) IN
+  LET S == DecStateL(c.st) IN
   {<<"temporal_adjacency:returned", Ret(c.tadj)>>,
    <<"temporal_adjacency:times", Ret(c.tadj) =>
         /\ Times(S) \subseteq {r.t : r \in Rng(c.tadj.mats)}
@@ -137,14 +153,14 @@ TempClauses(c) ==
 \* non-integer weights: the harness sends weights and entries multiplied by 4 (quarters), so that
 \* "the hyperedge's weight in the weighted incidence" is still decided exactly by TLC
 QuarterClauses(c) ==
-  LET S == DecState(c.st)
+  LET S == DecStateL(c.st)
       W(k) == S.E[k].w
   IN Std("incidence_fractional_weights", c.winc, S.nodes, IncidenceIs(c.winc, Keys(S), W))
 
 C09Clauses(c) ==
   IF c.kind = "hgq" THEN QuarterClauses(c) ELSE
   IF c.kind = "temp" THEN TempClauses(c)
-  ELSE HgClauses(c)
+  ELSE HgClauses(c) \cup OrderClauses(c) \cup LapAllClauses(c) \cup TensorClauses(c)
 R == INSTANCE CaseRunner WITH Clauses <- C09Clauses
 TInit == R!CInit
 TNext == R!CNext
